@@ -117,7 +117,9 @@ class Gen:
 
     def ident(self):
         return self.r.choice(["a", "b", "pet", "petId", "Pet", "x", "id", "", "name", "limit", "x-ext", "$ref",
-                              "type", "\u00fc", "A.B", "with space"])
+                              "type", "\u00fc", "A.B", "with space",
+                              # characters a JSON writer must escape in ways of its own (not the ones another notation uses)
+                              "bell\u0007", "\u0001", "del\u007f", "v\u000bt", "tag\U000e0001", "q\"b\\s", "line\u2028sep"])
 
     def number(self):
         return self.r.choice([0, 1, -1, 2, 10, 100, 65535, -7, 0.5, 1.5, -0.25, 2.0, 1.0, 0.0, 1e+20, 1e-05,
